@@ -355,6 +355,19 @@ func (c *Conn) SetKeepAlivePeriod(time.Duration) error { return nil }
 func (c *Conn) SetNoDelay(bool) error                  { return nil }
 func (c *Conn) SetLinger(int) error                    { return nil }
 
+// MuteLocked makes the connection silent in both directions from now on: nothing either end writes arrives, and
+// neither end is told. For use inside ConnHook (which runs with the network lock held): a server that accepts a
+// connection and then says nothing - frozen process, middlebox that drops everything after the handshake.
+func (c *Conn) MuteLocked() {
+	for _, h := range c.p.dir {
+		h.blackhole = true
+	}
+	c.p.n.countL("fault.mute", 1)
+}
+
+// Link names the connection's link ("<src node>><dst addr>").
+func (c *Conn) Link() string { return c.p.link }
+
 // Reset aborts the connection in both directions (fault).
 func (c *Conn) Reset() { c.p.n.ResetPair(c.p.id) }
 
